@@ -11,7 +11,9 @@ class Run(object):
     def __init__(self, pid, tier, seed, budget_s):
         self.pid, self.tier, self.seed = pid, tier, seed
         self.rnd = random.Random(seed)
-        self.t0 = time.time(); self.budget_s = budget_s
+        # quick tier: the case counts of the modules are the intended bound (the same work on every machine and seed); the wall-clock budget is
+        # only a safety net and therefore generous.  thorough tier: the budget is the bound
+        self.t0 = time.time(); self.budget_s = budget_s * (4 if tier == 'quick' else 1)
         self.evaluations = 0; self.distinct = set(); self.samples = []; self.violations = []; self.groups = {}
         self.notes = []; self.bounds = {}
 
